@@ -49,6 +49,15 @@ def make_ansatz(h, st):
     if cls == "pUCCD":
         return h.call(FILES[cls], "pUCCD", mol, **opts)
     if cls == "VSQS":
+        # user-supplied reference circuits (plain, or a warm start that itself carries variational gates) and a navigator Hamiltonian
+        rc = opts.pop("ref_circuit", None)
+        if rc == "variational":
+            opts["reference_state"] = Circuit([Gate("RY", 0, parameter=0.3, is_variational=True), Gate("X", 1), Gate("RZ", 1, parameter=-0.2, is_variational=True)], n_qubits=4)
+        elif rc == "plain":
+            opts["reference_state"] = Circuit([Gate("X", 0), Gate("H", 2)], n_qubits=4)
+        if opts.pop("h_nav", False):
+            from tangelo.toolboxes.operators import QubitOperator
+            opts["h_nav"] = QubitOperator("X0 Y1", 0.3) + QubitOperator("Y0 X1", -0.3) + QubitOperator("Z2", 0.1)
         return h.call(FILES[cls], "VSQS", mol, **opts)
     if cls == "RUCC":
         return h.call(FILES[cls], "RUCC", **opts)
@@ -130,6 +139,9 @@ CONFIGS = [
     {"cls": "HEA", "mol": "H2", "opts": {"mapping": "jw", "n_layers": 2}}, {"cls": "HEA", "mol": "H2", "opts": {"mapping": "scbk", "up_then_down": True, "n_layers": 1}},
     {"cls": "pUCCD", "mol": "H2", "opts": {}}, {"cls": "pUCCD", "mol": "H4", "opts": {}},
     {"cls": "VSQS", "mol": "H2", "opts": {"mapping": "jw", "intervals": 3, "time": 1.0}}, {"cls": "VSQS", "mol": "H2", "opts": {"mapping": "jw", "intervals": 3, "time": 1.0, "trotter_order": 2}},
+    {"cls": "VSQS", "mol": "H2", "opts": {"mapping": "jw", "intervals": 2, "time": 1.0, "ref_circuit": "variational"}},
+    {"cls": "VSQS", "mol": "H2", "opts": {"mapping": "jw", "intervals": 3, "time": 0.7, "ref_circuit": "plain", "h_nav": True}},
+    {"cls": "VSQS", "mol": "H2", "opts": {"mapping": "jw", "intervals": 2, "time": 0.5, "ref_circuit": "variational", "h_nav": True, "trotter_order": 2}},
     {"cls": "RUCC", "opts": {"n_var_params": 1}}, {"cls": "RUCC", "opts": {"n_var_params": 3}},
     {"cls": "VariationalCircuitAnsatz"},
     {"cls": "ADAPTAnsatz", "mol": "H2", "opts": {"mapping": "jw"}},
